@@ -184,6 +184,21 @@ def directed():
     return out
 
 
+# ROSTER of the kinds of PulseNode the ReflectServer services (reflector/ReflectServer.cpp PrepareToWaitForEvents():
+# CallGetPulseTimeAux, HandleEvents(): CallPulseAux).  harness/pulse_srv_h.cpp instruments each of them with scripted
+# GetPulseTime()/Pulse(); the server-level stage fails if a kind listed here is not exercised AND served in a run, so a
+# kind that is added to the server but not to the harness (or vice versa) is visible in the evidence.
+PULSE_NODE_KINDS = {
+    "session":   "AbstractReflectSession objects in _sessions (CallGetPulseTimeAux(*session) / CallPulseAux(*session))",
+    "gateway":   "each session's AbstractMessageIOGateway (CallGetPulseTimeAux(*g) / CallPulseAux(*gateway))",
+    "factory":   "ReflectSessionFactory objects in _factories (PutAcceptFactory)",
+    "server":    "the ReflectServer object itself (CallGetPulseTimeAux(*this) / CallPulseAux(*this)) and its pulse children",
+    "outpolicy": "AbstractSessionIOPolicy installed with SetOutputPolicy(): serviced only through _preparedPolicies (CheckPolicy), shared by several sessions, holders idle or busy",
+    "inpolicy":  "AbstractSessionIOPolicy installed with SetInputPolicy(): likewise",
+    "child":     "plain PulseNode children/grandchildren (PutPulseChild) of every kind above",
+}
+
+
 class CHECK(vlib.Check):
     prop = "C20"
     prop_file = "Properties_C20.v"
@@ -195,7 +210,7 @@ class CHECK(vlib.Check):
                 "GetPulseTimeAux, PulseAux, PutPulseChild, RemovePulseChild, ClearPulseChildren, ~PulseNode, "
                 "PulseNodeManager::CallGetPulseTimeAux/CallPulseAux (incl. its now>=aggregate guard); GetPulseTime()/Pulse() "
                 "are scriptable oracles that may operate on any node from inside the callback (in the Coq model: arbitrary functions that also see the whole forest). "
-                "Not modelled: cycle-start time / time-slice suggestions; ReflectServer's own event loop is not modelled but exercised against the real clock by harness/pulse_srv_h.cpp (it only calls the two manager entry points per root).")
+                "Not modelled: cycle-start time / time-slice suggestions; ReflectServer's own event loop (which roots it asks and pulses each cycle: sessions, gateways, factories, itself, prepared I/O policies) is NOT modelled -- corresponded only, by harness/pulse_srv_h.cpp on the real server with the roster PULSE_NODE_KINDS.")
     premises = ["memory safety and object lifetime of the C++ (observed by ASan/UBSan in the harness only)",
                 "theorems reach_inv / recalc_min / recalc_asks / cycle_exact / step_total*: the GetPulseTime() oracle is an arbitrary function of (node, call index, now, previous time) that performs NO operations; reach_inv_safe / recalc_min_safe: it may perform any operations that do not invalidate/detach/re-attach/destroy a node whose own GetPulseTimeAux is running (checked dynamically by the instrumented run_s, which erases to the model); what remains excluded is exactly F16 (C20_reentrant_recalc_refuted, C20_f16_history_refused); no termination claim for GetPulseTime() callbacks that perform operations (two siblings invalidating each other from GetPulseTime() spin forever in the code as well); the Pulse() oracle is arbitrary and may perform any list of invalidate/attach/detach/clear/destroy operations on any nodes (reach_inv, cop_preserves, pulse_never_early_once) except in pulse_exact and step_total where it performs none",
                 "times are uint64: the model clamps an oracle's answer to MUSCLE_TIME_NEVER (= 2^64-1, proved from the translated constant); pulse_exact/cycle_exact take pulse instants below MUSCLE_TIME_NEVER, pulse_exact_gen covers every instant (at MUSCLE_TIME_NEVER never-requests on unscheduled lists do not fire; the harness only corresponds that instant)",
@@ -234,10 +249,11 @@ class CHECK(vlib.Check):
         else:
             rng = random.Random(ctx["seed"] * 7919 + 3)
             n = 16 if ctx["tier"] == "quick" else 80
-            cases = replayed + ["S|%d;%d;%d;%d" % (rng.randrange(1, 10 ** 6), rng.choice([1, 2, 3, 4]), rng.choice([2, 4, 6, 8]),
+            cases = replayed + ["S|%d;%d;%d;%d" % (rng.randrange(1, 10 ** 6), rng.choice([1, 2, 3, 4]), rng.choice([1, 2, 3, 4]),
                                                   rng.choice([300, 1000, 2500, 4000])) for _ in range(n)]
         rc, out, err = vlib.run_lines(self.srv, "".join(c + "\n" for c in cases), timeout=600)
         seen = set()
+        roster = {k: {"instances": 0, "cases_served": 0} for k in PULSE_NODE_KINDS}
         for l in out:
             sp = l.split(" ", 1)
             if not sp[0].isdigit():
@@ -246,11 +262,28 @@ class CHECK(vlib.Check):
             if len(sp) > 1 and sp[1].startswith("ORACLE FAIL"):
                 ctx["failures"].append({"kind": "oracle", "signature": "server-level: " + sp[1], "case": cases[k],
                                         "detail": {"case": cases[k], "oracle": sp[1], "side": "impl (real ReflectServer, real clock)"}})
+            elif len(sp) > 1 and sp[1].startswith("ok"):
+                m = re.search(r"kinds=(\S+)", sp[1])
+                for item in (m.group(1).split(",") if m else []):
+                    name, _, cnt = item.partition(":")
+                    roster.setdefault(name, {"instances": 0, "cases_served": 0})["instances"] += int(cnt or 0)
+                m = re.search(r"served=(\S*)", sp[1])
+                for name in (m.group(1).split(",") if m and m.group(1) else []):
+                    roster.setdefault(name, {"instances": 0, "cases_served": 0})["cases_served"] += 1
         missing = [k for k in range(len(cases)) if k not in seen]
         if rc != 0 or missing:
             k = missing[0] if missing else len(cases) - 1
             ctx["failures"].append({"kind": "crash", "signature": "crash: server-level " + vlib.san_summary(err), "case": cases[k],
                                     "detail": {"case": cases[k], "rc": rc, "stderr": err[-2500:]}})
+        elif not replayed:
+            for name in sorted(set(list(PULSE_NODE_KINDS) + list(roster))):
+                r = roster.get(name, {"instances": 0, "cases_served": 0})
+                if name not in PULSE_NODE_KINDS:
+                    ctx["failures"].append({"kind": "oracle", "signature": "server-level roster: the harness exercises a PulseNode kind '%s' that checks/c20.py does not list" % name, "case": None, "detail": roster})
+                elif r["instances"] == 0 or r["cases_served"] == 0:
+                    if not any(f["signature"].startswith("server-level") for f in ctx["failures"]):
+                        ctx["failures"].append({"kind": "oracle", "signature": "server-level roster: no instance of PulseNode kind '%s' was exercised and served" % name, "case": None, "detail": roster})
+        self.roster = {name: dict(what=PULSE_NODE_KINDS.get(name, "?"), **roster.get(name, {})) for name in sorted(set(list(PULSE_NODE_KINDS) + list(roster)))}
         return len(cases)
 
     def extra_stage(self, ctx):
@@ -280,7 +313,9 @@ class CHECK(vlib.Check):
         n_srv = self.server_stage(ctx)
         ctx["extra_coverage"] = {"f16_tagged_failures": len(tagged), "f16_tagged_unsafe_per_model": n_unsafe, "f16_tagged_but_safe": n_safe,
                                  "server_level_cases": n_srv,
-                                 "server_level_note": "real in-process ReflectServer on socket pairs with timer trees, real clock; oracle = never early / asked time / asked again / nothing lost / reported wake-up not late (harness/pulse_srv_h.cpp)"}
+                                 "server_level_pulse_node_roster": getattr(self, "roster", {}),
+                                 "server_level_model_status": "corresponded only: the ReflectServer event loop's servicing of its roots (which roots are asked/pulsed each cycle) is not modelled in Coq; the model's theorems start at a serviced root (is_root). The server-level stage checks on the real server that every roster kind is asked for its time every cycle and served when due.",
+                                 "server_level_note": "real in-process ReflectServer (subclassed: itself a timer) with sessions on socket pairs, their gateways, an accept factory, shared input/output I/O policies with idle and busy holders, and timer children of all of them; real clock, but only lower bounds and clock-independent facts are checked; oracle = never early / the time asked for / every serviced node with a pending request asked in every server cycle / reported wake-up not later than any such request / nothing lost (harness/pulse_srv_h.cpp)"}
 
     def nontrivial(self, case):
         body = case.split("|", 1)[1]
